@@ -66,6 +66,8 @@ pub enum Op {
     ClearManager(usize),
     SetScopeMap(usize),
     RemScopeMap(usize),
+    /// map group g into the client's claims under TWO claim names at once
+    SetClaimMaps(usize),
     /// display name of a person := p | q
     SetVal(usize, usize),
     SetFilter(usize, usize),
@@ -374,6 +376,10 @@ impl World for Refs {
                     }
                     let has = e.as_ref().map(|e| e.attribute_equality(Attribute::OAuth2RsScopeMap, &PartialValue::Refer(slot_uuid(g)))).unwrap_or(false);
                     v.push(if has { Op::RemScopeMap(g) } else { Op::SetScopeMap(g) });
+                    let has_claim = e.as_ref().map(|e| e.get_ava_set(Attribute::OAuth2RsClaimMap).and_then(|vs| vs.as_ref_uuid_iter().map(|mut i| i.any(|u| u == slot_uuid(g)))).unwrap_or(false)).unwrap_or(false);
+                    if !has_claim {
+                        v.push(Op::SetClaimMaps(g));
+                    }
                 }
             }
         }
@@ -443,6 +449,10 @@ impl World for Refs {
             Op::SetScopeMap(g) => self.srv.write(ct, |w| {
                 let v = Value::new_oauthscopemap(slot_uuid(*g), ["read".to_string()].into_iter().collect()).ok_or(OperationError::InvalidValueState)?;
                 w.internal_modify_uuid(slot_uuid(5), &ModifyList::new_list(vec![Modify::Present(Attribute::OAuth2RsScopeMap, v)]))
+            }),
+            Op::SetClaimMaps(g) => self.srv.write(ct, |w| {
+                let vals = |n: &str| Value::OauthClaimValue(n.to_string(), slot_uuid(*g), [format!("v_{n}")].into_iter().collect());
+                w.internal_modify_uuid(slot_uuid(5), &ModifyList::new_list(vec![Modify::Present(Attribute::OAuth2RsClaimMap, vals("claim_a")), Modify::Present(Attribute::OAuth2RsClaimMap, vals("claim_b"))]))
             }),
             Op::RemScopeMap(g) => self.srv.write(ct, |w| w.internal_modify_uuid(slot_uuid(5), &ModifyList::new_list(vec![Modify::Removed(Attribute::OAuth2RsScopeMap, PartialValue::Refer(slot_uuid(*g)))]))),
             Op::SetVal(s, i) => self.srv.write(ct, |w| w.internal_modify_uuid(slot_uuid(*s), &ModifyList::new_purge_and_set(Attribute::DisplayName, Value::new_utf8s(VALS[*i])))),
